@@ -5,6 +5,8 @@ CONSTANTS
   T = 10
   D = 0
   MaxEvents = 3
+  MaxFails = 0
+  Backoff = FALSE
   Closed = TRUE
   ObserveCb = TRUE
   TrackQuiet = FALSE
